@@ -28,7 +28,7 @@ REL = {1: 0.15, 2: 0.9}          # value codes of Purity!cells[..].rel
 BASE_FIX = 0.35
 X_LL = np.array([1.3, 0.9, 0.7, 0.4, 0.3, 0.2])
 PAIRS = [('ll', 'lp_same'), ('ll', 'll'), ('llfix', 'pm'), ('hlp', 'll'), ('fp', 'lp'), ('pm', 'lp'), ('hlp', 'fp'), ('ctrl', 'll'),
-         ('lp', 'ctrl'), ('fp', 'fp'), ('ppm', 'll'), ('ppm', 'ppm'), ('tg', 'pm'), ('tg', 'tg'), ('popnc', 'popnc'), ('popnc', 'hlp')]
+         ('lp', 'ctrl'), ('fp', 'fp'), ('ppm', 'll'), ('ppm', 'ppm'), ('tg', 'pm'), ('tg', 'tg'), ('popnc', 'popnc'), ('popnc', 'hlp'), ('llallfix', 'll'), ('llallfix', 'llallfix')]
 
 
 def user_models():
@@ -65,6 +65,12 @@ def build(kind, u, shared=None):
         ll = chi.LogLikelihood(u['mech'], u['ems'], u['obs'], u['times'])
         ll.fix_parameters({'central.size': 0.9, OUTS[1] + ' Sigma rel.': 0.2})
         return ll, np.array([1.3, 0.7, 0.4, 0.3])
+    if kind == 'llallfix':
+        # EVERY mechanistic parameter fixed (nothing of the model left to differentiate); the object's own reconfiguration
+        # (objfix) sets one of them free again
+        ll = chi.LogLikelihood(u['mech'], u['ems'], u['obs'], u['times'])
+        ll.fix_parameters({'central.drug_amount': 1.3, 'central.size': 0.9, 'global.elimination_rate': 0.7})
+        return ll, np.array([0.4, 0.3, 0.2])
     if kind == 'hlp':
         lls = [chi.LogLikelihood(u['mech'], u['ems'], u['obs'], u['times']),
                chi.LogLikelihood(u['mech'], u['ems'], [u['obs'][0][:2], u['obs'][1]], [u['times'][0][:2], u['times'][1]])]
@@ -128,6 +134,11 @@ def build(kind, u, shared=None):
 
 def objfix(kind, obj, x):
     """fix_parameters on the object itself (Purity!PU_ObjFix): the base noise of the first output; returns the new point"""
+    if kind == 'llallfix':
+        obj.fix_parameters({'central.size': None})
+        if list(obj.get_parameter_names())[0] != 'central.size':
+            raise AssertionError('names after releasing a parameter: %r' % (obj.get_parameter_names(),))
+        return np.concatenate([[0.9], x])
     name = OUTS[0] + ' Sigma base'
     names = list(obj.get_parameter_names())
     i = names.index(name)
@@ -137,7 +148,7 @@ def objfix(kind, obj, x):
     return np.delete(x, i)
 
 
-CAN_FIX = ('ll', 'llfix', 'pm')
+CAN_FIX = ('ll', 'llfix', 'pm', 'llallfix')
 
 
 def evaluate(kind, obj, x, k):
@@ -351,6 +362,25 @@ def replay_walk(arg):
             except Exception as e:
                 fail('Pure', type(e).__name__, dict(error=repr(e), where='epilogue', object=kind, evaluation=k))
                 break
+        # ... and, where the object can be reconfigured and the walk has not done so: a gradient evaluation, THEN the
+        # reconfiguration, then every evaluation again -- as a fresh object reconfigured at once would answer
+        if kind in CAN_FIX and not objfixed[o] and 'lp_same' not in pair and not fails:
+            try:
+                evaluate(kind, obj, x, 'S1')
+                x = objfix(kind, obj, x)
+                objs[o] = (kind, obj, x)
+                objfixed[o] = True
+                cnt['objfix'] = cnt.get('objfix', 0) + 1
+                for k in ('S1', 'value', 'pointwise'):
+                    got = evaluate(kind, obj, x, k)
+                    exp = expected(kind, k, fixed=True)
+                    cnt['evaluations'] = cnt.get('evaluations', 0) + 1
+                    if got.shape != exp.shape or not np.allclose(got, exp, rtol=1e-9, atol=1e-10):
+                        fail('Pure', 'result_depends_on_history', dict(object=kind, evaluation=k, where='after the closing reconfiguration',
+                                                                        got=got.flatten()[:6].tolist(), expected=exp.flatten()[:6].tolist()))
+                        break
+            except Exception as e:
+                fail('Pure', type(e).__name__, dict(error=repr(e), where='closing reconfiguration', object=kind))
     cnt['results_retained'] = len(kept)
     for ref_, cp_, st_ in kept:
         if not np.array_equal(ref_, cp_, equal_nan=True):
